@@ -616,18 +616,20 @@ theorem nonvacuous_heap_tree_run :
 
     * a call on a handle that is LIVE at the path string `p` when the call is made (`LiveAt`: the root
       for `p = ""`, otherwise the node `root.Lookup(p)` returns in the current heap) contributes the
-      explicit function `HOp.atPath p vn op` — on the root the root-level `BOp` (`HOp.toBOp`), on a
+      explicit function `HOp.atPath p vn xn op` — on the root the root-level `BOp` (`HOp.toBOp`), on a
       handle the PATH-LEVEL call at `utils.ToPath(p, name)`: `x.AddValue(name, v)` ↦
       `AddValueAt(p.name, v)`, `x.AddContainer(name)` ↦ `AddValueAt(p.name, {})`, `x.Remove(name)` ↦
       `RemoveAt(p.name)`, `x.AddValueAt(q, v)` ↦ `AddValueAt(p.q, v)`, `l.Set(i, v)` ↦ the list call
-      addressed by `p`, `Child` / `Lookup` ↦ nothing; the call must be `HOp.TreeOk` (as in
-      `heap_run_tree`), `vn` is the abstraction of its value node;
+      addressed by `p`, `Child` / `Lookup` ↦ nothing.  Two kinds of handle calls have no path-level
+      counterpart — a member name containing '.' (the handle call stores the literal key, every path
+      would split it) and `Walk(CompactFn)` on a sub-container (`BOp.compact` is the root call) —;
+      they are rendered as `AddValueAt(p, <the handle's updated subtree>)` (`restoreAt`, computed from
+      `xn`, the abstraction of the handle).  The call must be `HOp.TreeOk` (as in `heap_run_tree`),
+      `vn` is the abstraction of its value node;
     * a call on a DETACHED handle (`Apart h root target`, `HOp.Ok` as in `heap_run_closed`)
       contributes NOTHING.
 
-  Two kinds of handle calls have no `BOp` and are outside the relation (`HOp.atSub` = `none`): a member
-  name containing '.' (the handle call stores the literal key, every path-level call would split it),
-  and `Walk(CompactFn)` on a sub-container (`BOp.compact` is the root call). -/
+  So every successful call on the root, on a live handle or on a detached handle is covered. -/
 
 /-- WHOLE-HISTORY REFINEMENT WITH HANDLES: for every history of builder calls on the root, on live
     handles (containers and lists, also handles sitting in list slots: `p = "a.l[2]"`) and on detached
@@ -643,56 +645,71 @@ theorem heap_run_refines (root : Addr) (h h' : Heap) (ops : List HOp) (bops : Li
   hrun.refines hi hs hrl hd
 
 /-- … one live call, stated on its own: the call on the handle at `p` IS `brun` of `HOp.atPath p` -/
-theorem heap_step_live_refines (h h' : Heap) (root : Addr) (op : HOp) (ret : Option Addr) (d : AMap Node) (vn : Node)
-    (p : String) (bops : List BOp) (hi : Inv h) (hs : SibSep h root) (hrl : root < h.size)
+theorem heap_step_live_refines (h h' : Heap) (root : Addr) (op : HOp) (ret : Option Addr) (d : AMap Node)
+    (vn xn : Node) (p : String) (bops : List BOp) (hi : Inv h) (hs : SibSep h root) (hrl : root < h.size)
     (hok : op.TreeOk h root) (hlive : LiveAt h root op.target p) (hd : abs h root = some (.cont d))
-    (hv : ∀ v, op.value = some v → abs h v = some vn) (hb : op.atPath p vn = some bops)
-    (he : hstep h op = .ok (h', ret)) :
+    (hv : ∀ v, op.value = some v → abs h v = some vn) (hxn : abs h op.target = some xn)
+    (hb : op.atPath p vn xn = some bops) (he : hstep h op = .ok (h', ret)) :
     ∃ d', brun d bops = .ok d' ∧ abs h' root = some (.cont d') :=
-  hstep_live_refines hi hs hrl hok hlive hd hv hb he
+  hstep_live_refines hi hs hrl hok hlive hd hv hxn hb he
 
-/-- the heaps of the history below -/
+def exV : Node := .leaf ⟨"string", "v"⟩
+def exOne : Node := .leaf ⟨"int", "1"⟩
+
+/-- the heaps of the history below (cells 0, 1, 3 and 4 never change after the second call) -/
 def exH1 : Heap := ⟨[.leaf Scalar.null, .leaf ⟨"int", "1"⟩, .cont [("b", 1), ("z", 4)], .cont [("a", 2), ("n", 0)],
   .leaf ⟨"string", "v"⟩]⟩
 def exH2 : Heap := ⟨[.leaf Scalar.null, .leaf ⟨"int", "1"⟩, .cont [("b", 1), ("z", 4)], .cont [("a", 5), ("n", 0)],
   .leaf ⟨"string", "v"⟩, .cont []]⟩
-def exH3 : Heap := ⟨[.leaf Scalar.null, .leaf ⟨"int", "1"⟩, .cont [("b", 1), ("y", 1), ("z", 4)],
-  .cont [("a", 5), ("n", 0)], .leaf ⟨"string", "v"⟩, .cont []]⟩
-def exH4 : Heap := ⟨[.leaf Scalar.null, .leaf ⟨"int", "1"⟩, .cont [("b", 1), ("y", 1), ("z", 4)],
-  .cont [("a", 5), ("n", 0)], .leaf ⟨"string", "v"⟩, .cont [("l", 6)], .list []]⟩
-def exH5 : Heap := ⟨[.leaf Scalar.null, .leaf ⟨"int", "1"⟩, .cont [("b", 1), ("y", 1), ("z", 4)],
-  .cont [("a", 5), ("n", 0)], .leaf ⟨"string", "v"⟩, .cont [("l", 6)], .list [4]]⟩
+def exHd (tail : List Cell) : Heap := ⟨[.leaf Scalar.null, .leaf ⟨"int", "1"⟩, .cont [("b", 1), ("y", 1), ("z", 4)],
+  .cont [("a", 5), ("n", 0)], .leaf ⟨"string", "v"⟩] ++ tail⟩
+def exH3 : Heap := exHd [.cont []]
+def exH4 : Heap := exHd [.cont [("l", 6)], .list []]
+def exH5 : Heap := exHd [.cont [("l", 6)], .list [4]]
+def exH6 : Heap := exHd [.cont [("e", 7), ("l", 6)], .list [4], .cont []]
+def exH7 : Heap := exHd [.cont [("e", 7), ("l", 6), ("x.y", 1)], .list [4], .cont []]
+def exH8 : Heap := exHd [.cont [("l", 6), ("x.y", 1)], .list [4], .cont []]
 
-/-- a history on `exB` (root #3) that uses handles in every way:
-    `x := root.Child("a")` (= #2) · `x.AddValue("z", #4)` (LIVE at "a") · `y := root.AddContainer("a")`
-    (on the root; returns the new #5 and DETACHES #2) · `x.AddValue("y", #1)` (on the now detached #2:
-    invisible) · `l := y.AddList("l")` (live at "a"; returns #6) · `l.Append(#4)` (list handle, live at
-    "a.l").  The corresponding value-level history has FOUR calls, and the document is its `brun`. -/
+/-- the heap-level history: `x := root.Child("a")` (= #2) ·
+    1 `x.AddValue("z", #4)` (x LIVE at "a") · 2 `y := root.AddContainer("a")` (on the root; returns the new
+    #5 and DETACHES #2) · 3 `x.AddValue("y", #1)` (on the now detached #2: invisible) ·
+    4 `l := y.AddList("l")` (y live at "a"; returns #6) · 5 `l.Append(#4)` (list handle, live at "a.l") ·
+    6 `y.AddContainer("e")` · 7 `y.AddValue("x.y", #1)` (a dotted member name) · 8 `y.Walk(CompactFn)` -/
+def exHOps : List HOp := [.addValue 2 "z" 4, .addContainer 3 "a", .addValue 2 "y" 1, .addList 5 "l",
+  .listAppend 6 4, .addContainer 5 "e", .addValue 5 "x.y" 1, .compact 5]
+
+/-- … and the value-level history that corresponds to it: SEVEN calls (call 3 contributes none) -/
+def exBOps : List BOp := [.addValueAt "a.z" exV, .addContainer "a", .addValueAt "a.l" (.list []),
+  .listAppend "a.l" exV, .addValueAt "a.e" (.cont []),
+  .addValueAt "a" (.cont (add [("e", .cont []), ("l", .list [exV])] "x.y" exOne)),
+  .addValueAt "a" (.cont (compactKvs [("e", .cont []), ("l", .list [exV]), ("x.y", exOne)]))]
+
+/-- a history on `exB` (root #3) that uses handles in every way; the document at the end is `brun` of
+    the corresponding value-level history -/
 theorem nonvacuous_heap_run_refines :
-    HandleRun 3 exB [.addValue 2 "z" 4, .addContainer 3 "a", .addValue 2 "y" 1, .addList 5 "l", .listAppend 6 4]
-      [.addValueAt "a.z" (.leaf ⟨"string", "v"⟩), .addContainer "a", .addValueAt "a.l" (.list []),
-        .listAppend "a.l" (.leaf ⟨"string", "v"⟩)] exH5 ∧
-    abs exB 3 = some (.cont [("a", .cont [("b", .leaf ⟨"int", "1"⟩)]), ("n", Node.null)]) ∧
-    brun [("a", .cont [("b", .leaf ⟨"int", "1"⟩)]), ("n", Node.null)]
-      [.addValueAt "a.z" (.leaf ⟨"string", "v"⟩), .addContainer "a", .addValueAt "a.l" (.list []),
-        .listAppend "a.l" (.leaf ⟨"string", "v"⟩)] =
-      .ok [("a", .cont [("l", .list [.leaf ⟨"string", "v"⟩])]), ("n", Node.null)] ∧
-    abs exH5 3 = some (.cont [("a", .cont [("l", .list [.leaf ⟨"string", "v"⟩])]), ("n", Node.null)]) := by
+    HandleRun 3 exB exHOps exBOps exH8 ∧
+    abs exB 3 = some (.cont [("a", .cont [("b", exOne)]), ("n", Node.null)]) ∧
+    brun [("a", .cont [("b", exOne)]), ("n", Node.null)] exBOps =
+      .ok [("a", .cont [("l", .list [exV]), ("x.y", exOne)]), ("n", Node.null)] ∧
+    abs exH8 3 = some (.cont [("a", .cont [("l", .list [exV]), ("x.y", exOne)]), ("n", Node.null)]) := by
   refine ⟨?_, by decide +kernel, by decide +kernel, by decide +kernel⟩
   have reach : ∀ (g : Heap) (a b : Addr), b ∈ Ytk.Heap.reach g a → Reach g a b := fun g a b hb => mem_reachF _ a b hb
   have novalue : ∀ (g : Heap) (op : HOp), op.value = none → ∀ v, op.value = some v →
       v < g.size ∧ SibSep g v ∧ Apart g 3 v := fun g op hn v hv => by rw [hn] at hv; cases hv
-  -- 1. x.AddValue("z", #4), x = #2 live at "a"
-  refine .live (p := "a") (vn := .leaf ⟨"string", "v"⟩) (bs := [.addValueAt "a.z" (.leaf ⟨"string", "v"⟩)])
-    (ret := none) (h1 := exH1) ⟨reach exB 3 2 (by decide), fun v hv => ?_⟩ (by decide +kernel)
-    (fun v hv => by cases hv; decide +kernel) rfl (by decide +kernel) ?_
-  · cases hv
-    obtain ⟨h1, h2, h3, _⟩ := leaf_value_ok (h := exB) (v := 4) (s := ⟨"string", "v"⟩) rfl 3
+  have leafval : ∀ (g : Heap) (v : Addr) (s : Scalar), g.get? v = some (.leaf s) →
+      v < g.size ∧ SibSep g v ∧ Apart g 3 v := fun g v s hg => by
+    obtain ⟨h1, h2, h3, _⟩ := leaf_value_ok hg 3
     exact ⟨h1, h2, h3⟩
+  -- 1. x.AddValue("z", #4), x = #2 live at "a"
+  refine .live (p := "a") (vn := exV) (xn := .cont [("b", exOne)]) (bs := [.addValueAt "a.z" exV])
+    (ret := none) (h1 := exH1) ⟨reach exB 3 2 (by decide), fun v hv => ?_⟩ (by decide +kernel)
+    (fun v hv => by cases hv; decide +kernel) (by decide +kernel) rfl (by decide +kernel) ?_
+  · cases hv; exact leafval exB 4 ⟨"string", "v"⟩ rfl
   -- 2. root.AddContainer("a")
-  refine .live (p := "") (vn := Node.null) (bs := [.addContainer "a"]) (ret := some 5) (h1 := exH2)
-    ⟨.refl _, novalue exH1 _ rfl⟩ (by decide +kernel) (fun v hv => by cases hv) rfl
-    (by decide +kernel) ?_
+  refine .live (p := "") (vn := Node.null)
+    (xn := .cont [("a", .cont [("b", exOne), ("z", exV)]), ("n", Node.null)]) (bs := [.addContainer "a"])
+    (ret := some 5) (h1 := exH2) ⟨.refl _, novalue exH1 _ rfl⟩ (by decide +kernel) (fun v hv => by cases hv)
+    (by decide +kernel) rfl (by decide +kernel) ?_
   -- 3. x.AddValue("y", #1) on the DETACHED #2
   refine .detached (ret := none) (h1 := exH3) ⟨by decide, fun v hv => ?_⟩ (apart_of_apartB (by decide +kernel))
     (by decide +kernel) ?_
@@ -700,16 +717,30 @@ theorem nonvacuous_heap_run_refines :
     obtain ⟨h1, _, _, h4⟩ := leaf_value_ok (h := exH2) (v := 1) (s := ⟨"int", "1"⟩) rfl 2
     exact ⟨h1, h4⟩
   -- 4. y.AddList("l"), y = #5 live at "a"
-  refine .live (p := "a") (vn := Node.null) (bs := [.addValueAt "a.l" (.list [])]) (ret := some 6) (h1 := exH4)
-    ⟨reach exH3 3 5 (by decide), novalue exH3 _ rfl⟩ (by decide +kernel) (fun v hv => by cases hv)
-    rfl (by decide +kernel) ?_
+  refine .live (p := "a") (vn := Node.null) (xn := .cont []) (bs := [.addValueAt "a.l" (.list [])])
+    (ret := some 6) (h1 := exH4) ⟨reach exH3 3 5 (by decide), novalue exH3 _ rfl⟩ (by decide +kernel)
+    (fun v hv => by cases hv) (by decide +kernel) rfl (by decide +kernel) ?_
   -- 5. l.Append(#4), l = #6 live at "a.l"
-  refine .live (p := "a.l") (vn := .leaf ⟨"string", "v"⟩) (bs := [.listAppend "a.l" (.leaf ⟨"string", "v"⟩)])
+  refine .live (p := "a.l") (vn := exV) (xn := .list []) (bs := [.listAppend "a.l" exV])
     (ret := none) (h1 := exH5) ⟨reach exH4 3 6 (by decide), fun v hv => ?_⟩ (by decide +kernel)
-    (fun v hv => by cases hv; decide +kernel) rfl (by decide +kernel) (.nil _)
-  cases hv
-  obtain ⟨h1, h2, h3, _⟩ := leaf_value_ok (h := exH4) (v := 4) (s := ⟨"string", "v"⟩) rfl 3
-  exact ⟨h1, h2, h3⟩
+    (fun v hv => by cases hv; decide +kernel) (by decide +kernel) rfl (by decide +kernel) ?_
+  · cases hv; exact leafval exH4 4 ⟨"string", "v"⟩ rfl
+  -- 6. y.AddContainer("e")
+  refine .live (p := "a") (vn := Node.null) (xn := .cont [("l", .list [exV])])
+    (bs := [.addValueAt "a.e" (.cont [])]) (ret := some 7) (h1 := exH6)
+    ⟨reach exH5 3 5 (by decide), novalue exH5 _ rfl⟩ (by decide +kernel) (fun v hv => by cases hv)
+    (by decide +kernel) rfl (by decide +kernel) ?_
+  -- 7. y.AddValue("x.y", #1): a dotted member name — the updated subtree is re-stored at "a"
+  refine .live (p := "a") (vn := exOne) (xn := .cont [("e", .cont []), ("l", .list [exV])])
+    (bs := [.addValueAt "a" (.cont (add [("e", .cont []), ("l", .list [exV])] "x.y" exOne))])
+    (ret := none) (h1 := exH7) ⟨reach exH6 3 5 (by decide), fun v hv => ?_⟩ (by decide +kernel)
+    (fun v hv => by cases hv; decide +kernel) (by decide +kernel) rfl (by decide +kernel) ?_
+  · cases hv; exact leafval exH6 1 ⟨"int", "1"⟩ rfl
+  -- 8. y.Walk(CompactFn) on the sub-container: drops the empty "e"
+  exact .live (p := "a") (vn := Node.null) (xn := .cont [("e", .cont []), ("l", .list [exV]), ("x.y", exOne)])
+    (bs := [.addValueAt "a" (.cont (compactKvs [("e", .cont []), ("l", .list [exV]), ("x.y", exOne)]))])
+    (ret := none) (h1 := exH8) ⟨reach exH7 3 5 (by decide), novalue exH7 _ rfl⟩ (by decide +kernel)
+    (fun v hv => by cases hv) (by decide +kernel) rfl (by decide +kernel) (.nil _)
 
 end heap
 
